@@ -2,15 +2,28 @@
    [parse]/[ptoks] (theories/Parser.v) are the standard grammar: additive below multiplicative below unary minus
    below right-associative power, calls, parentheses.  They are the SPECIFICATION the implementation is compared
    with on every case of the stream expr-strings (all operator pairs and triples).  What is proved:
-   (1) the specification grammar reads every tree with at most four operators back from its minimal printing
-       (exhaustive over 49537 trees, all shapes and all operators; the bound is part of the statement);
+   (1) the specification grammar reads EVERY tree back from its minimal printing -- any depth, any operators, any
+       function calls (C11_parse_print_all, by induction; the parser's fuel is shown to be linear in the number of
+       tokens); the earlier exhaustive check over the 49537 trees with at most four operators is kept as a test;
    (2) the operator, function and reserved-word tables regenerated from the sources are the standard ones.
    Not proved (trusted, exercised by the stream): CPython's ast.parse, the re module, sympy's arithmetic. *)
 From Coq Require Import List String QArith.
-From Bq Require Import Expr Parser ParserFacts.
+From Bq Require Import Expr Parser ParserFacts ParserRoundTrip.
 From BqGen Require Import GenParser.
 Import ListNotations.
 Open Scope string_scope.
+
+(* the grammar and its printer are inverse on every tree *)
+Theorem C11_parse_print_all : forall e, parse_tokens (ptoks e) = Some e.
+Proof. exact parse_tokens_ptoks. Qed.
+Print Assumptions C11_parse_print_all.
+
+(* ... also in context: followed by any token that cannot continue the expression at that level, the tree is read
+   back and the rest is left untouched (left-associative chains, right-associative powers, nested calls) *)
+Theorem C11_parse_print_prefix : forall e lvl rest, (lvl < prec e)%nat -> safe lvl rest ->
+  forall f, (B e + 2 <= f)%nat -> pe f lvl (ptoks e ++ rest) = Some (e, rest).
+Proof. exact pe_ptoks_prefix. Qed.
+Print Assumptions C11_parse_print_prefix.
 
 Theorem C11_parse_print : forall e, In e (trees_upto 4) -> parse_tokens (ptoks e) = Some e.
 Proof. exact parse_print_upto_4. Qed.
